@@ -338,6 +338,30 @@ theorem trace_entries_loaded {r : Inv} {loc : Option (List Str)} {l seen : List 
       · subst h; exact ⟨_, h2⟩
       · exact ih2 t h
 
+/-- For plain include entries a name denotes one class file, independently of the including
+class: every traced class is what `readClass` returns for its name at the root location.  So
+for plain inventories "each name once" (`each_class_once`) is "each class once". -/
+theorem plain_trace_entries {r : Inv} (hr : PlainInv r) {loc : Option (List Str)} {l seen : List Str}
+    {root : NodeM} {seen' : List Str} {root' : NodeM} {tr : List TraceEntry}
+    (h : Walk r loc l seen root seen' root' tr) (hl : ∀ cls ∈ l, PlainName cls) :
+    ∀ t ∈ tr, readClass r none t.1 = .ok (some t.2) := by
+  induction h with
+  | nil => intro t ht; simp at ht
+  | seen _ _ _ ih => exact ih fun x hx => hl x (List.mem_cons_of_mem _ hx)
+  | ignored _ _ _ _ ih => exact ih fun x hx => hl x (List.mem_cons_of_mem _ hx)
+  | @load loc cls rest seen root c cn seen1 root1 tr1 root2 seen' root' tr2 h1 _ h2 _ _ _ ih1 ih2 =>
+    have hp := hl cls (List.mem_cons_self ..)
+    rw [resolveClassName_of_no_marker _ _ hp.1] at h1
+    cases h1
+    have hcn := hr loc cls cn h2
+    rw [readClass_of_not_dot r loc hp.2] at h2
+    intro t ht
+    rcases List.mem_append.1 ht with h | h
+    · exact ih1 hcn t h
+    · rcases List.mem_cons.1 h with h | h
+      · subst h; exact h2
+      · exact ih2 (fun x hx => hl x (List.mem_cons_of_mem _ hx)) t h
+
 /-! ### The property, end to end -/
 
 /-- **C01 (soundness).**  Whenever a node renders, there is a trace `tr` of classes such that
@@ -431,6 +455,43 @@ example : (exInv.classes.length + 1) * (max (maxIncludes exInv) 2 + 2) = 24 := b
 
 /-- Too little fuel is reported as such (so `≠ .error .fuel` is not vacuous). -/
 example : summary (walkClassesT 10 exInv none ["a".toList, "b".toList] [] {}) = none := by decide
+
+/-- End to end through `renderNodeSrc`: node `n` includes `[a, b]`, has one application and
+one parameter.  Parameters are merged in the order `c a y x b`, then `_reclass_`, then the
+node's own `kn` last. -/
+def exMeta : MetaM :=
+  { node := "n".toList, name := "n".toList, uri := [], environment := "base".toList, parts := ["n".toList] }
+
+def nodeSummary (x : R NodeInfoM) : Option (List Str × List Str × List Key) :=
+  match x with
+  | .ok i => some (i.classes, i.apps, i.params.es.map Prod.fst)
+  | .error _ => none
+
+example : nodeSummary (renderNodeSrc 30 exInv exMeta
+    { classes := ["a".toList, "b".toList], apps := ["app".toList],
+      params := [(.str "kn".toList, .str "n".toList)] }) =
+    some (["c", "x", "a", "y", "b"].map String.toList, ["app".toList],
+      ["kc", "ka", "ky", "kx", "kb", "_reclass_", "kn"].map (fun s => Key.str s.toList)) := by
+  decide +kernel
+
+/-! ### A corner case: "once" is per resolved *name*, not per class file
+
+`seen` holds the names include entries resolve to; `readClass` makes a name absolute only
+afterwards.  A reference can therefore resolve to a second spelling of a class that was
+already merged (here `.a`, which at the root location denotes the class `a`), and the class
+file is then loaded and merged a second time.  (The Rust code does the same: it checks
+`seen.contains(&cls)` before `abs_class_name`.)  `each_class_once` is stated for names;
+`plain_trace_entries` shows that for plain entries names and class files coincide. -/
+
+def exInv2 : Inv :=
+  { classes := [ ("a".toList, exInfo "a.yml", exClass [] "x" ".a") ] }
+
+/-- Node list `[a, ${x}]` where `a` sets `x: .a`: the second entry resolves — against the
+parameters merged from `a` — to `.a`, which is new to `seen`, and loads class `a` again. -/
+example : summary (walkClassesT 20 exInv2 none ["a".toList, "${x}".toList] [] {}) =
+    some (["a", ".a"].map String.toList, ["a", ".a"].map String.toList, [Key.str "x".toList]) := by decide
+
+example : absClassName none ".a".toList = "a".toList := by decide
 
 end C01
 end Reclass
